@@ -76,9 +76,158 @@ def tags_sync(h, obs):
     return t
 
 
-register(PropSpec(
+def _register():
+    register(PropSpec(
     "C20",
-    engines=[EngineSpec("sync", gen_sync, mon_sync, tags_sync, quick_n=150, thorough_n=5000)],
-    rule="sync engine: every (begin,end,fetch) triple below a small bound exhaustively plus random large triples; "
-         "a history is non-trivial when it produced a refused, single-range or multi-range result; distinct = distinct op-shape+tag set",
-))
+    engines=[EngineSpec("sync", gen_sync, mon_sync, tags_sync, quick_n=150, thorough_n=5000),
+             EngineSpec("order", gen_order, mon_order, tags_order, quick_n=300, thorough_n=10000)],
+    rule="sync engine: every (begin,end,fetch) triple below a small bound exhaustively plus random large triples. order engine: the real "
+         "etcdraft.Node apply loop (entriesToApply/publishEntries/reportState/maybeTriggerSnapshot on real RaftStorage) fed with committed logs "
+         "containing valid, stale-leader, future and empty entries in arbitrary chunks, interleaved with execution, in-order/out-of-order/missing "
+         "reports, snapshots (snapCount 2/3/5/1000) and crash-restarts that rebuild the node from the same storage and re-deliver the log after the "
+         "snapshot; non-trivial = refused/single/multi range or minted/replayed blocks; distinct = distinct op list",
+    ))
+
+
+# ------------------------------------------------------------------------------------------ order engine
+
+import re as _re
+
+
+def gen_order(rng, n, tier):
+    import random as _r
+    hs = []
+    for _ in range(n):
+        r = _r.Random(rng.getrandbits(64))
+        le = r.choice([0, 0, 3])
+        sc = r.choice([2, 3, 5, 1000])
+        ops = [f"raft new lastExec={le} snapcount={sc}"]
+        tags = set()
+        idx = 0
+        nxt = le + 1          # next height a correct leader proposes
+        executed = le
+        minted_guess = le
+        pending_reports = []
+        for _ in range(r.randint(4, 25)):
+            k = r.random()
+            if k < 0.4:
+                ents = []
+                for _ in range(r.choice([1, 1, 2, 3, 5])):
+                    idx += 1
+                    x = r.random()
+                    if x < 0.1:
+                        ents.append(f"{idx}:e")
+                    elif x < 0.2:
+                        ents.append(f"{idx}:{max(1, nxt - r.choice([1, 2]))}")     # batch of a deposed leader (stale height)
+                        tags.add("entry:stale-height")
+                    elif x < 0.25:
+                        ents.append(f"{idx}:{nxt + r.choice([1, 3])}")             # future height (never valid)
+                        tags.add("entry:future-height")
+                    else:
+                        ents.append(f"{idx}:{nxt}")
+                        nxt += 1
+                ops.append("ready " + " ".join(ents))
+                if r.random() < 0.6:
+                    ops.append("snapshot")
+            elif k < 0.65:
+                ops.append("exec")
+                pending_reports.append(None)   # resolved by the monitor from outputs
+                if r.random() < 0.7:
+                    ops.append("report-last")
+            elif k < 0.75:
+                ops.append("report-last")
+            elif k < 0.8:
+                ops.append(f"report-back {r.choice([1, 1, 2, 3])}")          # late / repeated report of an executed height
+                tags.add("report:out-of-order")
+            elif k < 0.9:
+                ops.append("snapshot")
+            else:
+                ops.append("restart")
+                tags.add("restart")
+        # drain: execute everything that is deliverable, restart once more, drain again
+        ops += ["drain", "restart", "drain", "state"]
+        hs.append(History(ops, tags=tags))
+    return hs
+
+
+def _expand_reports(h, obs):
+    return h
+
+
+MINT = _re.compile(r"mint=\[([0-9 ]*)\]")
+
+
+def mon_order(h, obs):
+    """model-free: the committed log (from the ready ops) defines the chain; the executor must see heights
+    ledger+1, ledger+2, ... once each, and at the end every block of the chain must have been executed"""
+    hits = []
+    log = []          # (idx, height or None)
+    ledger = None
+    start = None
+    snap_ahead = False
+    queued_at_snapshot = 0
+    for op, o in zip(h.ops, obs):
+        ws = op.split()
+        if ws[0] == "raft":
+            m = _re.search(r"lastExec=(\d+)", op)
+            ledger = start = int(m.group(1))
+        elif ws[0] == "ready":
+            for s in ws[1:]:
+                i, hh = s.split(":")
+                log.append((int(i), None if hh == "e" else int(hh)))
+        elif ws[0] == "exec":
+            if o.startswith("executed="):
+                v = int(o.split("=")[1])
+                if v != ledger + 1:
+                    kind = "repeat" if v <= ledger else "gap"
+                    hits.append(Hit(f"C20/delivery-not-contiguous/{kind}", f"executor received height {v} while the ledger is at {ledger}", op))
+                ledger = v
+        elif ws[0] == "drain":
+            m = _re.match(r"drained=\[([0-9 ]*)\]", o)
+            for v in ([int(x) for x in m.group(1).split()] if m else []):
+                if v != ledger + 1:
+                    kind = "repeat" if v <= ledger else "gap"
+                    hits.append(Hit(f"C20/delivery-not-contiguous/{kind}", f"executor received height {v} while the ledger is at {ledger}", op))
+                ledger = v
+        elif ws[0] == "snapshot":
+            m = _re.search(r"snap=(\d+)", o)
+        elif ws[0] == "state" or ws[0] == "restart":
+            m = _re.search(r"snap=(\d+).*queued=(\d+) ledger=(\d+)", o)
+            if m and ws[0] == "restart":
+                pass
+    # expected chain from the log: the first entry with height = next after the previous one was delivered
+    exp = start
+    for (_, hh) in log:
+        if hh is not None and hh == exp + 1:
+            exp += 1
+    if ledger is not None and ledger < exp:
+        # which mechanism lost it?  a snapshot index beyond the index of the last executed block at some restart
+        fp = "C20/unexecuted-entry-skipped"
+        snap = 0
+        for op, o in zip(h.ops, obs):
+            m = _re.search(r"snap=(\d+)", o)
+            if m:
+                snap = max(snap, int(m.group(1)))
+        idx_of = {}
+        e2 = start
+        for (i, hh) in log:
+            if hh is not None and hh == e2 + 1:
+                e2 += 1
+                idx_of[hh] = i
+        if snap >= idx_of.get(ledger + 1, 10 ** 9):
+            fp = "C20/unexecuted-entry-skipped/snapshot-ahead-of-execution"
+        hits.append(Hit(fp, f"the committed log holds blocks up to height {exp} but after draining and a restart the ledger is at {ledger}"))
+    return hits
+
+
+def tags_order(h, obs):
+    t = set()
+    for op, o in zip(h.ops, obs):
+        if op == "restart" and "mint=[]" not in o:
+            t.add("restart:replay-minted")
+        if op.startswith("ready") and "mint=[]" not in o:
+            t.add("ready:minted")
+    return t
+
+
+_register()
